@@ -149,20 +149,26 @@ Print Assumptions C08_delete_put_chars_exec.
 (* not covered by a theorem: p (put after) and counts on puts as a round trip, upper-case (appending)
    registers in the round trip, "u restores" (C04) *)
 
-(* ---------- C08_utf8 (PARTIAL: delete, yank and put only) ---------- *)
-(* on the character view every edit moves whole characters: delete and put keep every line a list of
-   encoded scalar values, and the text that reaches a register is valid UTF-8 (flat_valid, with
-   chars_cons of UcSegProps).  Missing: vi_case (ASCII-only case flip), vi_shift, vc_join,
-   vc_replace and insert mode are not modelled in Coq. *)
-Theorem C08_utf8_delete_partial : forall b R y g, buf_valid b -> buf_valid (fst (vi_delete b R y g)).
-Proof. exact vi_delete_valid. Qed.
-Print Assumptions C08_utf8_delete_partial.
-Theorem C08_utf8_put_partial : forall b r off txt, buf_valid b -> line_valid txt -> buf_valid (put_chars b r off txt).
-Proof. exact put_chars_valid. Qed.
-Print Assumptions C08_utf8_put_partial.
-Theorem C08_utf8_register_partial : forall cs, line_valid cs -> valid (flat cs).
+(* ---------- C08_utf8 (full for the modelled command set) ---------- *)
+(* every program of modelled commands (motions, d y c < > g~ gu gU with any motion or doubled, x X D C s S Y ~,
+   p P, J, r, i a I A o O with the insert-mode keys ^H DEL ^U ^W ^T ^D and newline) maps a state whose buffer
+   lines are lists of encoded scalar values and whose registers hold valid UTF-8, together with typed text
+   and replacement characters that are encoded scalar values, to such a state again; hence the bytes of
+   every line and of every register are valid UTF-8 (UcSpec.valid, the C16 notion).  No well-formedness
+   of the lines is needed.  Not covered (not modelled): ^V (raw bytes by design), ^K ^P ^R, the ! filter *)
+Theorem C08_utf8 : forall rows cs e e', est_valid e -> Forall cmd_valid cs -> exec rows cs e = Some e' ->
+  est_valid e' /\ Forall (fun l => valid (flat l)) (s_buf e') /\
+  (forall c t ln, reg_get (s_regs e') c = Some (t, ln) -> valid t).
+Proof. exact exec_utf8. Qed.
+Print Assumptions C08_utf8.
+(* the initial state of a program (no register set) over a valid buffer is such a state *)
+Theorem C08_utf8_initial : forall b, buf_valid b -> est_valid (init_est b).
+Proof. exact init_est_valid. Qed.
+Print Assumptions C08_utf8_initial.
+(* the text that reaches a register from the character view is valid UTF-8 *)
+Theorem C08_utf8_register : forall cs, line_valid cs -> valid (flat cs).
 Proof. exact flat_valid. Qed.
-Print Assumptions C08_utf8_register_partial.
+Print Assumptions C08_utf8_register.
 Local Open Scope N_scope.
 
 Example C08_nonvacuous :
@@ -170,3 +176,16 @@ Example C08_nonvacuous :
   reg_get R 97 = Some ([98; 99; 10], false) /\ reg_get R 49 = Some ([99; 10], false) /\ reg_get R 50 = Some ([97; 10], true) /\
   reg_get R 34 = Some ([97; 10], true).
 Proof. vm_compute. repeat split; reflexivity. Qed.
+
+(* the interpreter on a concrete program: w, dw, then P of register 1, on the two lines 'ab cd' and 'ef' -- the
+   character-wise delete spans the line end (so register 1 is set as well), the buffer becomes 'ab ef',
+   and P of register 1 restores it *)
+Example C08_exec_nonvacuous :
+  let b := buf_of_bytes [97; 98; 32; 99; 100; 10; 101; 102; 10] in
+  (match exec_prog b 23 [CMot 0 Kw; COp 0 0 Od 0 (TMot Kw) []] with
+   | Some e => Some (map flat (s_buf e), v_row (s_vs e), v_off (s_vs e), reg_get (s_regs e) 49, reg_get (s_regs e) 34)
+   | None => None end)
+  = Some ([[97; 98; 32; 101; 102; 10]], 0%Z, 3%Z, Some ([99; 100; 10], false), Some ([99; 100; 10], false)) /\
+  (match exec_prog b 23 [CMot 0 Kw; COp 0 0 Od 0 (TMot Kw) []; CPut 49 0 false] with
+   | Some e => Some (s_buf e) | None => None end) = Some b.
+Proof. vm_compute. split; reflexivity. Qed.
